@@ -543,6 +543,18 @@ def documents(rng, tier):
                 else:
                     b[i] ^= 1 << rng.randrange(8)
             out.append((fmt, bytes(b)))
+    # CBOR: the examples of RFC 8949 appendix A and the malformed documents of C14's reader cases, each also with a break byte put at and
+    # written over every position (breaks where an item, a key, a value, a length or a tag's content is expected)
+    from checks import c14
+    cb = [bytes.fromhex(h) for h in c14.RFC8949_A] + VALID_DOCS["cbor"]
+    for d in cb:
+        out.append(("cbor", d))
+    for d in (cb if tier != "quick" else rng.sample(cb, 60)):
+        if len(d) <= 24:
+            for i in range(len(d) + 1):
+                out.append(("cbor", d[:i] + b"\xff" + d[i:]))
+                if i < len(d):
+                    out.append(("cbor", d[:i] + b"\xff" + d[i + 1:]))
     # nesting up to a depth that is not yet exhaustion
     for fmt, op, cl in [("json", b"[", b"]"), ("yaml", b"[", b"]"), ("json", b"{\"a\":", b"}"), ("xml", b"<a>", b"</a>"), ("toml", b"a = [" , b"]")]:
         for depth in (50, 200):
